@@ -76,6 +76,11 @@ def _const_ops(shapes):
             out.append(['bin', name, side, {'c': [], 'dt': 'py'}])
             out.append(['bin', name, side, {'c': [2, 2], 'dt': 'i'}])
             out.append(['bin', name, side, {'c': [3], 'dt': 'i'}])
+            # constants of an unsigned integer dtype (their negation wraps around in NumPy's own dtype)
+            out.append(['bin', name, side, {'c': [2, 2], 'dt': 'u8'}])
+            out.append(['bin', name, side, {'c': [3], 'dt': 'u8'}])
+            out.append(['bin', name, side, {'c': [2], 'dt': 'u16'}])
+            out.append(['bin', name, side, {'c': [], 'dt': 'u8'}])
     # batch matrix products where a size-1 batch axis of the constant sits between other batch axes
     for s4 in ([2, 1, 2, 3], [2, 1, 2, 2], [1, 2, 2, 3], [2, 1, 3, 2], [2, 1, 1, 2]):
         out.append(['bin', 'matmul', 'l', {'c': s4}])
@@ -378,6 +383,10 @@ def _const(spec, cur_shape, rs):
     dt = spec.get('dt', 'f')
     if dt == 'py':
         return 1.5
+    if dt in ('u8', 'u16'):
+        a = np.abs(const_val(tuple(shape), 'i', salt=len(shape))) + 1
+        a = a.astype(np.uint8 if dt == 'u8' else np.uint16)
+        return a if len(shape) else a[()]        # shape (): a NumPy unsigned scalar
     a = const_val(tuple(shape), 'i' if dt == 'i' else 'f', salt=len(shape))
     if dt == 'sp' and rs:
         return _rs['sp'].csr_matrix(a)
